@@ -57,8 +57,9 @@ PROPS = {
         "streams": [
             {"name": "rules", "n_quick": 3000, "n_thorough": 150000, "min_per_proc": 100},
             {"name": "c04", "n_quick": 700, "n_thorough": 30000, "compare": False, "min_per_proc": 100},
+            {"name": "sdpartial", "n_quick": 400, "n_thorough": 20000, "compare": False, "min_per_proc": 100},
         ],
-        "rule": "c04 (executed): DP GROUP BY on a column whose values are public (listed by its type), on databases where some listed value has no row or a single one, noise neutralised: the released keys must be exactly the listed values (a key column computed from the protected rows is an un-noised path); same generated queries as C13; additionally the relation returned by the real rewrite_with_differential_privacy is walked: every path from the root to a protected base table must cross a noise-adding Map lying above a Reduce; "
+        "rule": "sdpartial: 8 queries x a synthetic-data mapping that omits one protected table: the DP entry point either refuses or returns a relation that reads no protected table without a noisy aggregation; c04 (executed): DP GROUP BY on a column whose values are public (listed by its type), on databases where some listed value has no row or a single one, noise neutralised: the released keys must be exactly the listed values (a key column computed from the protected rows is an un-noised path); same generated queries as C13; additionally the relation returned by the real rewrite_with_differential_privacy is walked: every path from the root to a protected base table must cross a noise-adding Map lying above a Reduce; "
                 "the driver checks that every node of the real rule-annotated tree carries exactly the rules of the regenerated table (table_ok); non-trivial = at least 2 consistent derivations",
         "trusted_base": COMMON_TRUST + ["translator tools/tr_rules.py + harness `dump rules` (probe nodes per kind/config)", "the lineage audit recognises noise by the presence of `random` in a Map's expressions"],
         "assumptions": ["that a node rewritten by the DP-reduce arm is differentially private is the subject of C01/C03/C04, not of C02"],
@@ -263,8 +264,9 @@ PROPS = {
             {"name": "scope", "n_quick": 3000, "n_thorough": 300000, "compare": False, "min_per_proc": 500},
             {"name": "sizes", "n_quick": 3000, "n_thorough": 300000, "compare": True, "min_per_proc": 1000},
             {"name": "dialectdp", "n_quick": 300, "n_thorough": 30000, "compare": False, "min_per_proc": 100},
+            {"name": "sdpartial", "n_quick": 400, "n_thorough": 20000, "compare": False, "min_per_proc": 100},
         ],
-        "rule": "dialectdp: relations returned by rewrite_with_differential_privacy for generated aggregation queries (grouped by public-valued keys or not, joins along the privacy-unit path), rendered by the eight translators: accepted by the dialect's parser, read back with the same names, order and types; arith: integer intervals with bounds from {i64::MIN, MIN+1, -2^62, -3037000500, -32, -2..2, 6, 3037000500, 2^62, MAX-1, MAX} and small random bounds, float intervals with bounds from {f64::MIN, -2.5, -1e-300, -0.0, 0.0, 1e-300, 0.25, 2.5, f64::MAX}: type images of divide / multiply / plus / minus and absolute_upper_bound, panic-or-hull compared with the Lean totality model; total: generated queries (arithmetic incl. division, abs, exp, ln, sqrt, pow, CASE, casts, greatest, coalesce; aggregates incl. var / stddev; GROUP BY; joins) over a table with 16 extreme column types (full i64 / f64, ranges ending at or containing 0, single points, i64::MIN, 130-value sets, two-point {MIN, MAX}, nullable) x compile, schema, render (2 dialects), privacy-unit rewriting (Soft, Hard), DP rewriting with budgets from {1, 0, 1e-300, 1e300, inf} x {1e-5, 0, 1, 1e-300}; LIMIT / OFFSET from {0, 1, 999, 1000, 1001, 5000, 10^18, i64::MAX} against a 1000-row table; sizes: Map / Join / Set builders with sizes from {0, 1, 3, 10, 1000} and LIMIT / OFFSET 0..12 (declared size against the Lean size model); sqlx / c08x / dialect / rules / scope: the compile, render, read-back and rewriting phases of the other properties' streams, each under catch_unwind with a per-case watchdog; non-trivial = compiled",
+        "rule": "sdpartial: 8 queries x a synthetic-data mapping that omits one protected table: the DP entry point either refuses or returns a relation that reads no protected table without a noisy aggregation; dialectdp: relations returned by rewrite_with_differential_privacy for generated aggregation queries (grouped by public-valued keys or not, joins along the privacy-unit path), rendered by the eight translators: accepted by the dialect's parser, read back with the same names, order and types; arith: integer intervals with bounds from {i64::MIN, MIN+1, -2^62, -3037000500, -32, -2..2, 6, 3037000500, 2^62, MAX-1, MAX} and small random bounds, float intervals with bounds from {f64::MIN, -2.5, -1e-300, -0.0, 0.0, 1e-300, 0.25, 2.5, f64::MAX}: type images of divide / multiply / plus / minus and absolute_upper_bound, panic-or-hull compared with the Lean totality model; total: generated queries (arithmetic incl. division, abs, exp, ln, sqrt, pow, CASE, casts, greatest, coalesce; aggregates incl. var / stddev; GROUP BY; joins) over a table with 16 extreme column types (full i64 / f64, ranges ending at or containing 0, single points, i64::MIN, 130-value sets, two-point {MIN, MAX}, nullable) x compile, schema, render (2 dialects), privacy-unit rewriting (Soft, Hard), DP rewriting with budgets from {1, 0, 1e-300, 1e300, inf} x {1e-5, 0, 1, 1e-300}; LIMIT / OFFSET from {0, 1, 999, 1000, 1001, 5000, 10^18, i64::MAX} against a 1000-row table; sizes: Map / Join / Set builders with sizes from {0, 1, 3, 10, 1000} and LIMIT / OFFSET 0..12 (declared size against the Lean size model); sqlx / c08x / dialect / rules / scope: the compile, render, read-back and rewriting phases of the other properties' streams, each under catch_unwind with a per-case watchdog; non-trivial = compiled",
         "trusted_base": COMMON_TRUST + ["std::panic::catch_unwind + the harness panic hook (location, message) as the observer of panics; a watchdog thread turns a hang into a reported failure"],
         "assumptions": ["the supported fragment is represented by the generators of the streams listed; constructs outside them are not exercised", "overflow checks are on in the harness build (debug profile), as in a debug build of the library"],
         "technique": "Lean 4 proof over a model of the i64 / f64 corner arithmetic behind type images (saturating + - * are total, ordered and in range, so the interval assertion cannot fire on integers; the integer-division image panics iff the divisor interval contains 0; a NaN corner of the float-division image exists iff both intervals contain 0; abs-based bound panics iff a bound is i64::MIN, the repaired one is total) + model/implementation correspondence on panic-or-hull at the range edges + catch_unwind / watchdog over every public entry point on generated queries and extreme schemas",
